@@ -33,3 +33,15 @@ package yubiagent
 //@     arg(Writer.Write, n0 + 1, 1) == data && argc(Writer.Write, n0 + 1, 1) == elems(data))
 //@   ensures [errors-surface] (len(data) <= 16777216 && err == nil) ==> (ret(Writer.Write, n0, 1) == nil && ret(Writer.Write, n0 + 1, 1) == nil)
 //@   ensures len(data) <= 16777216 ==> calls(Writer.Write) >= n0 + 1 && calls(Writer.Write) <= n0 + 2
+
+//@ func newForwarder(req, resp)
+//@   modifies all
+//@   ensures true
+
+//@ # ---------------------------------------------------------------- C12: the request loop
+//@ func ServeAgent(agent, c)
+//@   requires agent != nil && c != nil
+//@   modifies all
+//@   ensures [clean-eof] result == nil ==> (calls(read) > old(calls(read)) && ret(read, calls(read) - 1, 1) == io.EOF)
+//@   loop 1:
+//@     invariant true
